@@ -164,6 +164,8 @@ def run_batch(pid, tier, scenarios, bindir, extra_prelude=None, nproc=None, dmg_
             end = starts[k+1][0]-1 if k+1 < len(starts) else len(evs)
             out['scn_events'][name] = evs[ln-1:end]
         out['traces'] += len(starts)
+        st = [int(x) for x in re.findall(r'"STAT \{\\"nbl\\":(\d+)\}"', r['out'])]
+        out['nbl'] = out.get('nbl', 0) + (max(st) if st else 0)
         for m in re.finditer(r'"VIOL (\{.*\})"', r['out']):
             try:
                 v = json.loads(m.group(1).replace('\\"','"'))
@@ -279,6 +281,7 @@ def finish(pid, tier, seed, level, scenarios, res, rules_owned, t0, rule_desc, n
                samples=samples, evaluations=res['events'], distinct_nontrivial=len(nt), rule=rule_desc,
                scenarios=len(scenarios), families=sorted(set(s.family for s in scenarios)),
                violations_other_rules=len(other), known_findings_seen={k:len(v) for k,v in kn.items()},
+               lap_blend_reads_judged=res.get('nbl', 0),
                harness_cpu_s=round(res['harness_s'],1), tlc_cpu_s=round(res['tlc_s'],1),
                checker_cmd='java -cp tla2tools.jar tlc2.TLC -workers 1 -config VFApi_Trace.cfg VFApi_Trace.tla (TRACE=<ndjson>)')
     if extra_cov: cov.update(extra_cov)
@@ -286,5 +289,5 @@ def finish(pid, tier, seed, level, scenarios, res, rules_owned, t0, rule_desc, n
     if isinstance(dm, dict) and 'states' in dm:
         cov['states'] += dm['states']; cov['transitions'] += dm.get('transitions', 0)
     vlib.write_evidence(pid, tier, seed, level, cov, time.time()-t0, nviol, assumptions)
-    print(f"[{pid}] tier={tier} scenarios={len(scenarios)} events={res['events']} distinct_nontrivial={len(nt)} violations={nviol} known={sum(len(v) for v in kn.values())} other_rule_notes={len(other)} wall={time.time()-t0:.1f}s")
+    print(f"[{pid}] tier={tier} scenarios={len(scenarios)} events={res['events']} distinct_nontrivial={len(nt)} violations={nviol} known={sum(len(v) for v in kn.values())} blend_judged={res.get('nbl',0)} other_rule_notes={len(other)} wall={time.time()-t0:.1f}s")
     return rc
